@@ -112,6 +112,15 @@ class Unsupported(UnsupportedOp):
     """construct outside the supported subset: the function's obligations become undecided"""
 
 
+class Phi(object):
+    """a local assigned a mutable object under merge guards: new under /\\ guards, else old"""
+
+    __slots__ = ("guards", "new", "old")
+
+    def __init__(self, guards, new, old):
+        self.guards, self.new, self.old = guards, new, old
+
+
 class NeedFork(Exception):
     """guarded (merging) execution met something that needs a real fork"""
 
@@ -986,8 +995,8 @@ class Engine(object):
     def merge_values(self, g, new, old):
         if new is old:
             return new
-        if isinstance(new, (SObj, SMap, GList, list, dict, PyFunc, SSeq)) or isinstance(
-            old, (SObj, SMap, GList, list, dict, PyFunc, SSeq)
+        if isinstance(new, (SObj, SMap, GList, list, dict, PyFunc, SSeq, Phi)) or isinstance(
+            old, (SObj, SMap, GList, list, dict, PyFunc, SSeq, Phi)
         ):
             raise NeedFork("merge of mutable objects")
         if isinstance(new, (SStr,)) or isinstance(old, (SStr,)):
@@ -1013,6 +1022,23 @@ class Engine(object):
             return fv_apply(lambda x: x, r)
         return r
 
+    def resolve_phi(self, v, st):
+        """read of a lazily merged mutable local: the guards under which it was stored decide"""
+        while isinstance(v, Phi):
+            cur = {g.get_id() for g in st.guards}
+            if all(g.get_id() in cur for g in v.guards):
+                v = v.new
+                continue
+            g = _and(v.guards)
+            if st.guards:
+                t, f = st.feasible(g), st.feasible(z3.Not(g))
+                if t and f:
+                    raise NeedFork("read of a conditionally assigned mutable local")
+                v = v.new if t else v.old
+            else:
+                v = v.new if st.decide(g, "conditionally assigned local") else v.old
+        return v
+
     def set_local(self, frame, name, v, st):
         decl = frame.locals.get("__globals_decl__")
         if decl and name in decl:
@@ -1023,7 +1049,14 @@ class Engine(object):
             st.log(lambda: env.globals.__setitem__(name, old))
             return
         old = frame.locals.get(name, UNBOUND)
-        frame.locals[name] = self.merged(v, old, st, self.guard_base(frame))
+        try:
+            frame.locals[name] = self.merged(v, old, st, self.guard_base(frame))
+        except NeedFork as e:
+            if "mutable" not in str(e):
+                raise
+            # a mutable object stored into a local under merge guards: kept as a lazy choice that
+            # is resolved when (and if) the local is read
+            frame.locals[name] = Phi(list(st.guards[self.guard_base(frame):]), v, old)
         if old is UNBOUND:
             st.log(lambda: frame.locals.pop(name, None))
         else:
@@ -1129,6 +1162,8 @@ class Engine(object):
             return fv_guard_of(v, self.concrete_truth)
         if isinstance(v, GList):
             return z3.simplify(v.truth_z())
+        if type(v).__name__ == "SymSet":
+            return z3.simplify(_or([g for g, _ in v.items]))
         if isinstance(v, SStr):
             return z3.simplify(v.z != lit(""))
         if isinstance(v, SInt):
@@ -1494,7 +1529,10 @@ class Engine(object):
         f = frame
         while f is not None:
             if name in f.locals:
-                v = self.under_guards(f.locals[name], st)
+                v = f.locals[name]
+                if isinstance(v, Phi):
+                    v = self.resolve_phi(v, st)
+                v = self.under_guards(v, st)
                 if v is UNBOUND:
                     raise PyRaise(UnboundLocalError, (name,))
                 if isinstance(v, FV) and any(x is UNBOUND for x in v.values):
@@ -1621,7 +1659,7 @@ class Engine(object):
             if attr == "__name__":
                 return obj.name
             raise PyRaise(AttributeError, (attr,))
-        if isinstance(obj, (SStr, FV, DI, SMap, GList, SSeq, SBool, SInt, S.SplitResult, OpaqueObjList)):
+        if isinstance(obj, (SStr, FV, DI, SMap, GList, SSeq, SBool, SInt, S.SplitResult, OpaqueObjList)) or type(obj).__name__ == "SymSet":
             return HostMethod(obj, attr)
         if isinstance(obj, (str, list, dict, tuple, set, int, float, decimal.Decimal, Fraction)):
             if not hasattr(obj, attr):
@@ -2223,6 +2261,9 @@ class Engine(object):
             return list(it)
         if isinstance(it, GList):
             return self.compact_glist(it, st)
+        if type(it).__name__ == "SymSet":
+            st.events.append(("hash-order", "iteration over a set (order depends on the hash seed)"))
+            return self.compact_glist(GList(it.items), st)
         if isinstance(it, dict):
             return list(it.keys())
         if isinstance(it, str):
